@@ -162,6 +162,18 @@ Theorem gsort_options_values : forall tl,
 Proof. intros tl OK. apply tag_loop_values; [exact OK|apply le_n]. Qed.
 
 (* ---- a whole field, a whole definition *)
+Lemma parse_all_app : forall o1 o2,
+  parse_all (o1 ++ o2) = match parse_all o1, parse_all o2 with
+                         | Some a, Some b => Some (a ++ b)%list
+                         | _, _ => None
+                         end.
+Proof.
+  induction o1 as [|o r IH]; intros o2.
+  - cbn [parse_all]. rewrite app_nil_l. destruct (parse_all o2); reflexivity.
+  - rewrite <- app_comm_cons. cbn [parse_all]. rewrite IH.
+    destruct (parse_options o), (parse_all r), (parse_all o2); reflexivity.
+Qed.
+
 Lemma parse_all_render : forall ts,
   forallb tag_ok ts = true ->
   parse_all (map (render_options false) ts) = Some ts.
